@@ -10,4 +10,5 @@ CONSTANTS
   ImsLe = TRUE
   ImsLocalTime = FALSE
   ImsNotAfterNow = FALSE
+  BigPositions = TRUE
 INVARIANT Sound
